@@ -206,7 +206,7 @@ pub fn run(report: &Report) -> i32 {
                 x
             })
         },
-        report.cases(6000, 300_000),
+        report.cases(36_000, 1_500_000),
         case,
     );
     report.finish("generated-input search (proptest) with per-transmit size oracle")
